@@ -186,7 +186,8 @@ static void handle(int argc, char **argv) {
         scanner->buffer = (UChar *) malloc(BUF_SIZE_INITIAL * sizeof(UChar));
         scanner->buffer_size = BUF_SIZE_INITIAL;
         scanner->buffer_limit = 0;
-        scanner->cr_pending = 0;
+        /* cr_pending = 0: done by the memset of setup_scanner (not named here, so that this file also builds against a tree
+           whose scanner_s lacks the member) */
         INIT_V2_SCANNER(scanner, NULL, NULL);
         scanner->next_char = scanner->buffer;
         scanner->text_start = scanner->buffer;
